@@ -36,20 +36,32 @@ var cd = coder.NewNormalCoder()
 type config struct {
 	name    string
 	skipped []string
+	// emptyPrefix: the backend is configured with Prefix "" (getCompactBorders turns it into "/")
+	emptyPrefix bool
+}
+
+func (c config) prefix() string {
+	if c.emptyPrefix {
+		return ""
+	}
+	return prefix
 }
 
 var configs = []config{
-	{"none", nil},
-	{"one", []string{"/registry/skip"}},
-	{"two-disjoint", []string{"/registry/skip", "/registry/leases"}},
-	{"nested", []string{"/registry/skip", "/registry/skip/sub"}},
-	{"duplicate", []string{"/registry/skip", "/registry/skip"}},
-	{"sibling", []string{"/registryfoo"}},
+	{"none", nil, false},
+	{"one", []string{"/registry/skip"}, false},
+	{"two-disjoint", []string{"/registry/skip", "/registry/leases"}, false},
+	{"nested", []string{"/registry/skip", "/registry/skip/sub"}, false},
+	{"duplicate", []string{"/registry/skip", "/registry/skip"}, false},
+	{"sibling", []string{"/registryfoo"}, false},
 	// one skipped prefix is a string prefix of another one, followed by a byte below '/'
-	{"dot", []string{"/registry/pods", "/registry/pods.archive"}},
-	{"dot2", []string{"/registry/leases.k8s.io", "/registry/leases", "/registry/skip"}},
+	{"dot", []string{"/registry/pods", "/registry/pods.archive"}, false},
+	{"dot2", []string{"/registry/leases.k8s.io", "/registry/leases", "/registry/skip"}, false},
 	// a skipped prefix that contains the whole prefix range: nothing is compacted
-	{"covering", []string{"/registry/skip", "/registry"}},
+	{"covering", []string{"/registry/skip", "/registry"}, false},
+	// no prefix configured: the compaction covers everything under "/" (minus the skipped prefixes)
+	{"empty-prefix", nil, true},
+	{"empty-prefix-skip", []string{"/registry/skip", "/other"}, true},
 }
 
 // ---------- an engine slot that can be swapped under a live backend ----------
@@ -91,7 +103,7 @@ func (w *worker) backendFor(cfg config) (*lib.CsBackend, *swapKV, error) {
 	sw := &swapKV{}
 	kv, _, _ := lib.NewEngine(lib.EngMem, w.scratch)
 	sw.set(kv)
-	be, err := lib.CsNewBackend(sw, prefix, cfg.skipped, 1000)
+	be, err := lib.CsNewBackend(sw, cfg.prefix(), cfg.skipped, 1000)
 	if err != nil {
 		return nil, nil, err
 	}
@@ -126,6 +138,8 @@ type runSpec struct {
 	// splits: the engine reports its key space cut at these raw keys (GetPartitions): the pass runs one concurrent
 	// worker per (adjusted) partition. Engine "tikv-split": a TiKV mock whose regions are split there.
 	splits [][]byte
+	// iterFail: the n-th iterator Next() of the pass fails once (n >= 1); the worker's own retry follows
+	iterFail int
 }
 
 const engTiKVSplit = "tikv-split"
@@ -252,6 +266,7 @@ func addsCoq(w lib.CsWrite, class string, hdr uint64) string {
 var errInjected = errors.New("verif: injected delete failure")
 
 type variantOut struct {
+	nnext int // iterator steps of the pass
 	coq      string
 	json     map[string]interface{}
 	outcomes []string
@@ -342,7 +357,8 @@ func (w *worker) runVariant(cfg config, pre []lib.KV, preDec []lib.CsRec, hist u
 		faultAt[f.at] = f.kind
 	}
 	firedIdx := map[int]bool{}
-	wrap := &lib.Wrap{KvStorage: inner}
+	ifk := &iterFaultKV{KvStorage: inner, failAt: rs.iterFail}
+	wrap := &lib.Wrap{KvStorage: ifk}
 	if rs.splits != nil && rs.engine != engTiKVSplit {
 		wrap.Partitions = cutPartitions(rs.splits)
 	}
@@ -440,10 +456,17 @@ func (w *worker) runVariant(cfg config, pre []lib.KV, preDec []lib.CsRec, hist u
 	mu.Lock()
 	inCompact = true
 	mu.Unlock()
+	ifk.arm(true)
 	resp, cerr := be.B.Compact(ctx, req)
+	ifk.arm(false)
 	mu.Lock()
 	inCompact = false
 	mu.Unlock()
+	vo.nnext = ifk.nexts
+	if rs.iterFail != 0 && !ifk.fired {
+		vo.fail = "internal: the iterator fault was not reached"
+		return
+	}
 	_ = cerr
 	if rs.splits != nil {
 		sort.SliceStable(pcalls, func(i, j int) bool { return bytes.Compare(pcalls[i].key, pcalls[j].key) < 0 })
@@ -467,7 +490,7 @@ func (w *worker) runVariant(cfg config, pre []lib.KV, preDec []lib.CsRec, hist u
 	if len(executed) > 0 {
 		// the allocator of the pass's backend cannot be rewound: the writer-only replay runs on a second
 		// backend of this worker, initialised at the same committed revision
-		beA, swA, err := w.backendFor(config{name: cfg.name + "#A", skipped: cfg.skipped})
+		beA, swA, err := w.backendFor(config{name: cfg.name + "#A", skipped: cfg.skipped, emptyPrefix: cfg.emptyPrefix})
 		if err != nil {
 			vo.fail = err.Error()
 			return
@@ -526,7 +549,7 @@ func (w *worker) runVariant(cfg config, pre []lib.KV, preDec []lib.CsRec, hist u
 	vo.ndel = len(kinds)
 	vo.kinds = kinds
 	vo.coq = lib.App("mkV7", lib.N(D), lib.N(req), lib.List(ocs), lib.N(hdr), lib.N(cur2), lib.List(kinds),
-		beforeCoq, postDiff, afterCoq, lib.List(round), finalDiff)
+		beforeCoq, postDiff, afterCoq, lib.List(round), finalDiff, lib.N(uint64(rs.iterFail)))
 	var envJ []interface{}
 	for _, e := range executed {
 		envJ = append(envJ, map[string]interface{}{"op": e.w.Op, "key": string(e.w.Key), "rev": e.w.Rev, "res": e.class, "hdr": e.hdr})
@@ -535,6 +558,10 @@ func (w *worker) runVariant(cfg config, pre []lib.KV, preDec []lib.CsRec, hist u
 		"delete_calls": kinds, "removed_positions": rmi, "writers": envJ, "round": roundJ, "reads_changed": vo.changed}
 	for _, f := range rs.faults {
 		vo.outcomes = append(vo.outcomes, "fault-"+f.kind)
+	}
+	if rs.iterFail != 0 {
+		vo.json["iterator_next_failed"] = rs.iterFail
+		vo.outcomes = append(vo.outcomes, "iterator-fault-retried")
 	}
 	if rs.splits != nil {
 		var sj []string
@@ -582,7 +609,7 @@ func buildHistory(r *lib.Rand, cfg config, scratch string, corpus int) (*history
 		}
 		return nil
 	}}
-	be, err := lib.CsNewBackend(wrap, prefix, cfg.skipped, initRev)
+	be, err := lib.CsNewBackend(wrap, cfg.prefix(), cfg.skipped, initRev)
 	if err != nil {
 		return nil, err
 	}
@@ -700,7 +727,7 @@ func main() {
 	args := lib.ParseArgs()
 	backend.VerifSetIntervals(time.Hour, time.Hour)
 	rnd := lib.NewRand(args.Seed)
-	nHist, faultRs, dieEvery, envPer, par := 16, 2, 3, 2, 48
+	nHist, faultRs, dieEvery, envPer, par := 9, 2, 3, 2, 64
 	switch args.Tier {
 	case "thorough":
 		nHist, faultRs, dieEvery, envPer, par = 150, 3, 1, 3, 64
@@ -753,7 +780,7 @@ func main() {
 	borders := map[string]string{}
 	for _, cfg := range configs {
 		kv, cl, _ := lib.NewEngine(lib.EngMem, args.Scratch)
-		be, err := lib.CsNewBackend(kv, prefix, cfg.skipped, initRev)
+		be, err := lib.CsNewBackend(kv, cfg.prefix(), cfg.skipped, initRev)
 		if err != nil {
 			fmt.Fprintln(os.Stderr, err)
 			os.Exit(2)
@@ -973,6 +1000,17 @@ func main() {
 				add(runSpec{faults: []fault{{i, "cas"}}})
 			}
 		}
+		// a transient failure of one iterator step: the worker retries the pass from the start of its range (1 s backoff);
+		// what the two attempts delete together is what one pass deletes
+		if nn := outs[ci].variants[0].nnext; nn > 0 && cj.corpus {
+			step := 1
+			if args.Tier == "quick" && !cj.h.hot && nn > 4 {
+				step = (nn + 3) / 4
+			}
+			for n := 1 + (ci % step); n <= nn; n += step {
+				add(runSpec{iterFail: n, engine: lib.EngMem}) // memkv: the retried scan sees the store as it is; on TiKV it re-reads its timestamp's snapshot and re-issues the deletes
+			}
+		}
 		if ndel >= 2 { // two failures in one pass
 			add(runSpec{faults: []fault{{0, "other"}, {1 + r.Intn(ndel-1), "other"}}})
 		}
@@ -1052,7 +1090,7 @@ func main() {
 		for _, s := range cj.h.cfg.skipped {
 			sk = append(sk, lib.Str(s))
 		}
-		coq := lib.App("mkC7", lib.Str(prefix), lib.List(sk), borders[cj.h.cfg.name], lib.CsRecsCoq(cj.h.dec, tab),
+		coq := lib.App("mkC7", lib.Str(cj.h.cfg.prefix()), lib.List(sk), borders[cj.h.cfg.name], lib.CsRecsCoq(cj.h.dec, tab),
 			lib.List(rcoq), lib.List(o.before), lib.List(vs))
 		if ndel > 0 {
 			oc = append(oc, "deletes")
@@ -1061,7 +1099,7 @@ func main() {
 		}
 		w.Add(lib.Case{Kind: cj.kind, Coq: coq, JSON: j, Trivial: ndel == 0, Outcomes: oc})
 	}
-	if err := w.Finish("random histories over 8 keys (inside the prefix, under skipped prefixes, outside the prefix) with updates, deletes, re-creations and earlier (failing) compactions, plus two scripted ones, under 6 prefix/skipped-prefix configurations; one case per (history, R) for every revision R of the history, R=0 and R above current; variants: fault-free, delete call #i failing / dying / compare-failing for every i, two failures, writers interleaved between delete calls, a client Create of a tombstoned key placed exactly before the delete call on that key's index record (memkv, Badger, TiKV mock; the round then starts with an Update at the true revision); every second fault / interleaving variant runs with the storage metrics wrapper above the failing engine (the production stack); scripted cases (incl. a hot key created, updated x5, deleted) also on engines reporting 2-4 partitions with borders inside one key's version run (memkv behind lib.Wrap.Partitions, TiKV mock split at those keys), delete calls collected in key order; distinct = SHA-256 of the Coq case; non-trivial = the pass issued at least one engine delete"); err != nil {
+	if err := w.Finish("random histories over 8 keys (inside the prefix, under skipped prefixes, outside the prefix) with updates, deletes, re-creations and earlier (failing) compactions, plus two scripted ones, under 6 prefix/skipped-prefix configurations; one case per (history, R) for every revision R of the history, R=0 and R above current; variants: fault-free, delete call #i failing / dying / compare-failing for every i, two failures, writers interleaved between delete calls, a client Create of a tombstoned key placed exactly before the delete call on that key's index record (memkv, Badger, TiKV mock; the round then starts with an Update at the true revision); every second fault / interleaving variant runs with the storage metrics wrapper above the failing engine (the production stack); scripted cases also with one iterator step (Next) of the scan failing once, at every / at sampled positions, followed by the worker's own retry (memkv); configurations with an empty configured prefix (with and without skipped prefixes); scripted cases (incl. a hot key created, updated x5, deleted) also on engines reporting 2-4 partitions with borders inside one key's version run (memkv behind lib.Wrap.Partitions, TiKV mock split at those keys), delete calls collected in key order; distinct = SHA-256 of the Coq case; non-trivial = the pass issued at least one engine delete"); err != nil {
 		fmt.Fprintln(os.Stderr, err)
 		os.Exit(2)
 	}
